@@ -1,0 +1,16 @@
+//go:build verif
+// +build verif
+
+package mysql
+
+// Add-only exports for the verification harness in /verif (build tag verif).
+
+// VerifReadLenEncString exposes readLenEncString.
+func VerifReadLenEncString(data []byte, pos int) (string, int, bool) {
+	return readLenEncString(data, pos)
+}
+
+// VerifSkipLenEncString exposes skipLenEncString.
+func VerifSkipLenEncString(data []byte, pos int) (int, bool) {
+	return skipLenEncString(data, pos)
+}
